@@ -1,6 +1,7 @@
 (** Property C15 -- changed-line reports are sound.
     Only pinned statements, closed by [exact], with their assumptions printed. *)
 From Avt Require Import Oracles.Step Proofs.Inv Proofs.Dirty.
+From Avt Require Import Gen.BufFns Proofs.BufTie.
 
 (** Every control function marks every row whose cells it changes: the ghost invariant [DInv v0] (a row whose flag is clear has the cells it had at the previous report, and the height is unchanged) is preserved by every function from every state satisfying the invariant. (The premise is C04_print.) *)
 Theorem C15_execute : (forall t c, TInv t -> exists t', print t c = Ok t' /\ TInv t') -> forall v0 t f t', TInv t -> DInv v0 t -> execute t f = Ok t' -> DInv v0 t'.
@@ -23,3 +24,21 @@ Theorem C15_flush : forall v0 v v' o, TInv (vterm v) -> DInv v0 (vterm v) -> ste
 Proof. exact stepM_Flush_C15. Qed.
 Check C15_flush : forall v0 v v' o, TInv (vterm v) -> DInv v0 (vterm v) -> stepM v Flush = Ok (v', o) -> holds_C15 v0 v' (o_lines o) = true /\ DInv (tview (vterm v')) (vterm v').
 Print Assumptions C15_flush.
+
+(** SOURCE TIE BY PROOF: the function is REGENERATED from the Rust source on every run (Gen/BufFns.v, translate/buf2coq.py: slice and Vec idioms into the model's list primitives, every Rust panic condition as a guard) and the hand-written model function is proved equal to it (=~ : equal up to the panic-site number) - an edit to the Rust function breaks this theorem (DirtyLines::add) *)
+Theorem C15_source_dirty_add : forall d n, g_dirty_add d n =~ dirty_add d n.
+Proof. exact tie_dirty_add. Qed.
+Check C15_source_dirty_add : forall d n, g_dirty_add d n =~ dirty_add d n.
+Print Assumptions C15_source_dirty_add.
+
+(** DirtyLines::extend *)
+Theorem C15_source_dirty_extend : forall d a z, g_dirty_extend d a z =~ dirty_extend d a z.
+Proof. exact tie_dirty_extend. Qed.
+Check C15_source_dirty_extend : forall d a z, g_dirty_extend d a z =~ dirty_extend d a z.
+Print Assumptions C15_source_dirty_extend.
+
+(** DirtyLines::to_vec *)
+Theorem C15_source_dirty_to_vec : forall d, g_dirty_to_vec d = Ok (dirty_to_vec d 0).
+Proof. exact tie_dirty_to_vec. Qed.
+Check C15_source_dirty_to_vec : forall d, g_dirty_to_vec d = Ok (dirty_to_vec d 0).
+Print Assumptions C15_source_dirty_to_vec.
